@@ -453,8 +453,28 @@ def stale_check(svg, tier):
     return stale.Stale(svg, measures, extra_mutations=extra, depth=2 if tier == "thorough" else 1)
 
 
+def refused_check(svg):
+    """path data that is refused without retaining anything (the error is in the first argument group of the appended
+    piece): what is appended afterwards, and the round trip of the result, must not depend on the refused attempt"""
+    from props import failsafe
+
+    def rt(p):
+        text = p.d()
+        q = svg.Path(text)
+        return [[repr(s) for s in p], text, [repr(s) for s in q]]
+    sc = []
+    for bad in ("L 3", "h", "Q 1", "A 5 5 0", "T", "l 1,1x"[:5] + "x", "a 1 1 0 2 0 1 1"):
+        for nm, fol in (("+= Close()", lambda p: (p.__iadd__(svg.Close()), rt(p))[-1]),
+                        ("+= 'l 2,2 h3 z'", lambda p: (p.__iadd__("l 2,2 h3 z"), rt(p))[-1]),
+                        ("append Line", lambda p: (p.append(svg.Line(svg.Point(9, 9), svg.Point(20, 20))), rt(p))[-1]),
+                        ("d(relative=True)", lambda p: p.d(relative=True))):
+            sc.append(dict(name="Path('M1,1 L9,1 L9,9') += %r" % bad, fresh=lambda: svg.Path("M1,1 L9,1 L9,9"),
+                           attempt=(lambda p, bad=bad: p.__iadd__(bad)), follow={nm: fol}))
+    return failsafe.Refused(svg, sc)
+
+
 def build(tier, seed, svg):
-    return [Sequences(svg, tier, seed), Handles(svg, tier, seed), Arcs(svg, tier), Precision(svg, tier), stale_check(svg, tier)]
+    return [Sequences(svg, tier, seed), Handles(svg, tier, seed), Arcs(svg, tier), Precision(svg, tier), stale_check(svg, tier), refused_check(svg)]
 
 
 def m_subpath_fragment(d):
